@@ -20,6 +20,7 @@ import (
 type tapEv struct {
 	Seq     uint32
 	Payload []byte
+	Err     string // reads only: the transport returned this error (Payload empty)
 }
 
 type kexObs struct {
@@ -60,7 +61,7 @@ func (t *tapRec) tap() *ssh.VerifTap {
 	return &ssh.VerifTap{
 		BeforeWrite: func(seq uint32, p []byte) {
 			t.mu.Lock()
-			t.writes = append(t.writes, tapEv{seq, p})
+			t.writes = append(t.writes, tapEv{Seq: seq, Payload: p})
 			t.mu.Unlock()
 		},
 		AfterWrite: func(seq uint32, p []byte, err error) {
@@ -75,8 +76,9 @@ func (t *tapRec) tap() *ssh.VerifTap {
 			t.mu.Lock()
 			if err != nil {
 				t.readErrs = append(t.readErrs, err.Error())
+				t.reads = append(t.reads, tapEv{Seq: seq, Err: err.Error()})
 			} else {
-				t.reads = append(t.reads, tapEv{seq, p})
+				t.reads = append(t.reads, tapEv{Seq: seq, Payload: p})
 				if len(p) > 0 && p[0] == msgNewKeys {
 					t.nkR++
 					t.cond.Broadcast()
@@ -423,6 +425,8 @@ func kindPacket(kind string, body []byte) ([]byte, error) {
 		return append([]byte{msgServiceRequest}, sshString([]byte("ssh-userauth"))...), nil
 	case "NEWKEYS":
 		return []byte{msgNewKeys}, nil
+	case "KEXINIT-GARBAGE":
+		return append([]byte{msgKexInit}, body...), nil
 	case "UNASSIGNED":
 		if len(body) == 0 {
 			body = []byte{8}
@@ -430,6 +434,10 @@ func kindPacket(kind string, body []byte) ([]byte, error) {
 		// a message number nobody assigned: 8..19, 22..29, 101..127 or 194..255
 		free := []byte{8, 9, 12, 19, 22, 29, 101, 127, 194, 255}
 		return append([]byte{free[int(body[0])%len(free)]}, body[1:]...), nil
+	}
+	var t int
+	if n, _ := fmt.Sscanf(kind, "TYPE%d", &t); n == 1 && t > 0 && t < 256 {
+		return append([]byte{byte(t)}, body...), nil
 	}
 	return nil, errors.New("unknown kind " + kind)
 }
